@@ -251,7 +251,20 @@ class _Walker:
 
     # -- expressions -------------------------------------------------------------------------
     def ev(self, e: ast.AST, env: dict) -> ast.AST:
-        new = _Subst(env).visit(copy.deepcopy(e))
+        e = copy.deepcopy(e)
+        # walrus: `f(a) if g(a := X) else h`  ->  the name stands for X throughout the expression
+        wal = {n.target.id: n.value for n in ast.walk(e) if isinstance(n, ast.NamedExpr) and isinstance(n.target, ast.Name)}
+        if wal:
+            class W(ast.NodeTransformer):
+                def visit_NamedExpr(self, n):
+                    return self.visit(n.value)
+
+                def visit_Name(self, n):
+                    if isinstance(n.ctx, ast.Load) and n.id in wal:
+                        return W().visit(copy.deepcopy(wal[n.id]))
+                    return n
+            e = W().visit(e)
+        new = _Subst(env).visit(e)
         new = _Fuse().visit(new)  # a comprehension over a substituted comprehension
         self._tag(new)
         return new
@@ -386,7 +399,7 @@ class _Walker:
             for k in list(dict.fromkeys(list(e1) + list(e2))):
                 if k.startswith("@") and not (k in e1 and k in e2):
                     continue
-                a, b = e1.get(k, _name("UNDEF")), e2.get(k, _name("UNDEF"))
+                a, b = e1.get(k, _name(k)), e2.get(k, _name(k))
                 if a is b or ast.dump(a) == ast.dump(b):
                     out[k] = a
                 else:
@@ -515,7 +528,7 @@ class _Walker:
             for t, e1 in reversed(outs[:-1]):
                 new = {}
                 for k2 in list(dict.fromkeys(list(e1) + list(merged))):
-                    a, b = e1.get(k2, _name("UNDEF")), merged.get(k2, _name("UNDEF"))
+                    a, b = e1.get(k2, _name(k2)), merged.get(k2, _name(k2))
                     new[k2] = a if ast.dump(a) == ast.dump(b) else ast.IfExp(test=copy.deepcopy(t), body=a, orelse=b)
                 merged = new
             return merged, cond
